@@ -11,6 +11,10 @@ sed -i "s#\"/repo\"\\]#\"$R\"]#g; s#\"-C\", \"/repo\"#\"-C\", \"$R\"#g" $S/vx/se
 cd $S
 VERIF_REPO=$R python3 vx/seed_matrix.py "$@"
 if [ $# -eq 0 ]; then cp $S/seeded/RESULTS.md /verif/seeded/RESULTS.md; fi
-for d in $S/seeded/*/; do id=$(basename $d); [ -f $d/meta.json ] && [ -d /verif/seeded/$id ] && cp $d/meta.json /verif/seeded/$id/meta.json; done
+# copy back only the metas this run produced (all of them for a full run), so that parallel runs do not overwrite each other
+for d in $S/seeded/*/; do id=$(basename $d)
+  if [ $# -gt 0 ] && ! echo " $* " | grep -q " $id "; then continue; fi
+  [ -f $d/meta.json ] && [ -d /verif/seeded/$id ] && cp $d/meta.json /verif/seeded/$id/meta.json
+done
 rm -rf $S $R
 echo SNAPSHOT-MATRIX-DONE
